@@ -700,8 +700,8 @@ def r11_7(chk, so):
             continue
         c, pol = e.guards[-1]
         ca = c.as_atom()
-        if not (ca and ca[0] in ("eq", "ne") and pol == (ca[0] == "ne")):
-            continue
+        if not (ca and ca[0] in ("eq", "ne") and pol == (ca[0] == "ne") and (ca[1] == P.const(0) or ca[2] == P.const(0))):
+            continue            # (only the test "entry != 0" decides that a letter is written)
         ent = [a for a in find_atoms(c, lambda a: a[0] == "sub" and a[2] and a[2][0].const_value() is not None and a[1].as_atom()
                                      and a[1].as_atom()[0] == "sub" and a[1].as_atom()[1].key() == rot0)]
         ent += [a for a in find_atoms(c, lambda a: a[0] == "sub" and len(a[2]) == 2 and a[1].key() == rot0 and all(x.const_value() is not None for x in a[2]))]
